@@ -1074,24 +1074,31 @@ func runC13(c *Ctx) error {
 		r.emit(st, "st")
 		r.emit(st, "loc")
 		const u = 1000000 // first unknown id of the runs
-		for _, n := range []int{32765, 32766, 32767, 32768, 40001} {
-			half := n / 2
+		type fam struct {
+			n     int
+			which []int // indices into the placements below
+			stops []int
+		}
+		for _, f := range []fam{
+			{32766, []int{0, 1, 2, 4}, []int{0}}, {32766, []int{3}, []int{63}},
+			{32767, []int{0, 1, 2, 3, 4}, []int{0}}, {32767, []int{1}, []int{63}},
+			{32765, []int{1}, []int{0}}, {32768, []int{3}, []int{0}},
+			{40001, []int{0, 1, 3, 4}, []int{0}}, {40001, []int{2}, []int{63}},
+		} {
+			n, half := f.n, f.n/2
 			locs := []string{
-				fmt.Sprintf("%d*%d", u, n),                                         // all unknown
-				fmt.Sprintf("61,%d*%d", u, n-1),                                     // a longest-chain hash first
-				fmt.Sprintf("%d*%d,40,%d*%d", u, half, u+half, n-half-1),            // in the middle
-				fmt.Sprintf("%d*%d,55", u, n-1),                                     // last
-				fmt.Sprintf("30,%d*%d,81,60,%d*%d,12", u, half, u+half, n-half-4),   // several, a stale one among them
+				fmt.Sprintf("%d*%d", u, n),                                       // all unknown
+				fmt.Sprintf("61,%d*%d", u, n-1),                                   // a longest-chain hash first
+				fmt.Sprintf("%d*%d,40,%d*%d", u, half, u+half, n-half-1),          // in the middle
+				fmt.Sprintf("%d*%d,55", u, n-1),                                   // last
+				fmt.Sprintf("30,%d*%d,81,60,%d*%d,12", u, half, u+half, n-half-4), // several, a stale one among them
 			}
-			for i, l := range locs {
-				for _, sp := range []int{0, 63} {
-					if i > 1 && sp != 0 && n != 40001 {
-						continue
-					}
-					r.emit(st, fmt.Sprintf("q=%s/%d", l, sp))
+			for _, i := range f.which {
+				for _, sp := range f.stops {
+					r.emit(st, fmt.Sprintf("q=%s/%d", locs[i], sp))
+					c.Count("locator:around-sql-variable-limit")
 				}
 			}
-			c.Count("locator:around-sql-variable-limit")
 		}
 		c.Count("gen:over-long-locators")
 	}
